@@ -142,3 +142,16 @@ for _ext, _size in (("True", 4000), ("False", 500)):
                   if _ext == "True" else
                   f"spec.logix.le(msg(), 6 + 26, 2) == ({_size} | 0x4200) and spec.logix.le(msg(), 6 + 26 + 6, 2) == ({_size} | 0x4200)")],
         props=["C04", "C10"])
+
+# a fragment that carries status 6 but is not a valid reply (encapsulation error) must not be spliced into a successful value
+contract(
+    id="sizes.read.fragmented.bad_middle", func=LD + "._send_read_fragmented", call="d.send(req)",
+    params=dict(BASE, **SC, name=P.str(**IDENT), elements=P.int(1, 65535), head=P.bytes(len=46), bad=P.bytes(len=46),
+                c0=P.bytes(minlen=1, maxlen=400), c1=P.bytes(minlen=1, maxlen=400)),
+    requires=["spec.encap.le(head, 8, 4) == 0", "spec.encap.le(bad, 8, 4) != 0"],
+    setup=CONN + [f"tag_info = {_tag_info('DINT')}", "tag_info['type_class'] = type(pycomm3.cip.data_types.n_bytes(-1))",
+                  "req = pycomm3.packets.ReadTagFragmentedRequestPacket(5, name, elements, tag_info, 0, use_ids, 0)",
+                  "t = spec.env.Transport([spec.logix.read_fragment_reply(bad, 6, b'\\xc4\\x00', c0), "
+                  "spec.logix.read_fragment_reply(head, 0, b'\\xc4\\x00', c1)])", "d._sock = t"],
+    ensures=["not bool(result)", "isinstance(result.error, str) and len(result.error) > 0"],
+    props=["C04", "C01", "C13"], max_paths=20000)
